@@ -34,6 +34,8 @@ Failure modes (classifier keys):
   clip.new-vertex-off-boundary     a new vertex farther than 1 from the rectangle's boundary
   clip.inside-changed              a polygon entirely inside the rectangle is not returned unchanged
   clip.outside-not-vanished        a polygon that misses the rectangle produced output
+  clip.outside-degenerate-path     ... and that output consists only of paths with fewer than 3 vertices, which cover nothing (GetPath returns the one
+                                   or two points that are left after removing collinear vertices)
   clip.orientation                 an output path winds around a sample point (strictly inside, > 2 from the path) against the simple input's orientation
   clip.wn.simple                   winding clause, simple input, strictly inside
   clip.wn.parity                   winding clause, non-simple input without an edge along a side, strictly inside
@@ -470,6 +472,11 @@ def evaluate(tools, cases, rng, npts, lattice=False, with_model=True, fixed_pts=
             d['v'] = parse_verdict(vm[i])
             d['fail'] = list(d['v']['keys'])
         res.append(d)
+    # a polygon that misses the rectangle and whose whole output consists of paths with fewer than 3 vertices (they cover nothing):
+    # RectClip64::GetPath returns whatever is left after removing collinear vertices, also when only one or two points remain
+    for d in res:
+        if d['fail'] == ['clip.outside-not-vanished'] and d['out'] and all(len(p) < 3 for p in d['out']):
+            d['fail'] = ['clip.outside-degenerate-path']
     # root cause classification of a failing output that is exactly the model's output (tagged with provenance):
     #  clip.stale-ip2    it contains a point tagged SX: ip2 of a second GetIntersection call that returned false
     #  clip.ip-off-side  the diagnostic variant of the model in which the points returned by GetSegmentIntersection are projected onto the
@@ -486,7 +493,7 @@ def evaluate(tools, cases, rng, npts, lattice=False, with_model=True, fixed_pts=
             if any(k == 3 for tg in tags for k in tg):
                 res[i]['clauses'] = res[i]['fail']
                 res[i]['fail'] = ['clip.stale-ip2']
-            elif any(k == 1 for tg in tags for k in tg):
+            else:
                 cand.append(i)
         if cand:
             sl = tools.model([clipt_cmd(cases[i]).replace('CLIPT', 'CLIPS', 1) for i in cand])
